@@ -115,6 +115,10 @@ def handle (st : DState) (line : String) : DState × String :=
       | ["settime", i, j, t] => match parseNat? i, parseNat? j, parseNat? t with
         | some i, some j, some t => run (.setTime i j t) | _, _, _ => (st, "bad-op")
       | ["settype", n] => match parseInt? n with | some n => run (.setType n) | none => (st, "bad-op")
+      | ["swapmsgs", i, j] => match parseNat? i, parseNat? j with
+        | some i, some j => run (.swapMsgs i j) | _, _ => (st, "bad-op")
+      | ["shifttime", i, j, k] => match parseNat? i, parseNat? j, parseNat? k with
+        | some i, some j, some k => run (.shiftTime i j k) | _, _, _ => (st, "bad-op")
       | ["merged"] => run .obsMerged
       | _ => (st, "bad-op")
     | "backend" => (st, runBackend args)
